@@ -347,7 +347,13 @@ func (b *BaseType) UnmarshalJSON(data []byte) error {
 		case []interface{}:
 			// it's an OvsSet
 			oSet := bt.Enum.([]interface{})
-			innerSet := oSet[1].([]interface{})
+			if len(oSet) != 2 || oSet[0] != "set" {
+				return fmt.Errorf("enum %v is not a valid <set>", bt.Enum)
+			}
+			innerSet, ok := oSet[1].([]interface{})
+			if !ok {
+				return fmt.Errorf("enum %v is not a valid <set>", bt.Enum)
+			}
 			b.Enum = make([]interface{}, len(innerSet))
 			copy(b.Enum, innerSet)
 		default:
